@@ -354,7 +354,7 @@ func init() {
 		NotDecided: []string{
 			"that an honest proposer's proposal is always accepted, and that any single-element mutation of the injected data is rejected (element-wise equality through JSON round trips, nil versus empty lists) -- only the length alignment of the lists and 'every list was compared' are decided",
 			"that a validator's EVM address is registered only once over the life of the chain (decided: at most one registration per commit vote, the setter writes exactly the given operator, and EVMAddressFromSignatures returns an address that BOTH of the validator's two signatures over the two fixed messages recover to -- secp256k1 recovery itself, crypto.SigToPub in TryRecoverAddressWithBothIDs, is an uninterpreted function; its body slices sig[:64], which is now a precondition of the trusted contract that EVMAddressFromSignatures passes on and the proposal handler establishes -- fix 7ead2b5)",
-			"ctx.ConsensusParams().Abci is dereferenced without a nil check in ProcessProposal and PreBlocker, and ProcessProposal indexes req.Txs[0] without a length check (a panic there is recovered by baseapp and rejects the proposal): these panic obligations are not claimed",
+			"ctx.ConsensusParams().Abci is dereferenced without a nil check in ProcessProposal and PreBlocker (consensus parameters without an ABCI section: a chain configuration, not message bytes): that panic obligation is not claimed; the index req.Txs[0] of ProcessProposal is decided since the fix d0bb75f",
 			"construction of a vote extension (ExtendVoteHandler: keyring, signing, JSON) is not under contract except for the choice of what to sign for the validator set (CheckAndSignValidatorCheckpoint: only the latest checkpoint, for the own operator, nothing when already signed or not a member; GetOperatorAddress and EncodeAndSignMessage are trusted, read-only); VerifyVoteExtensionHandler is: a decodable extension is accepted only with signatures of at most 65 bytes and no more attestations than requested for the previous height, an undecodable one only from a validator without a registered EVM address, and the handler never returns an error",
 		},
 	})
